@@ -6,6 +6,12 @@ open SamVerif SamVerif.Drive SamVerif.Drive.Cluster
 (the model says so), and once a refresh has settled after a layout change requests are not
 redirected any more -/
 def handle (_kind : String) (args : List String) (impl : String) : String :=
+  if _kind == "c07.uto" then
+    -- every backend connection has the 10 s user timeout: a peer that vanished is given up after 10 s, not after the kernel's 15 minutes
+    (let vals := (impl.drop 4).toString.splitOn ","
+     if impl.startsWith "uto=" && vals.all (· == "10000") then "ok"
+     else if impl.startsWith "uto=" && vals.all (fun v => v != "0") then s!"DIFF model=uto=10000 impl={impl}"
+     else s!"SPEC a-backend-connection-whose-peer-vanishes-is-never-given-up impl={impl}") else
   if _kind == "c07.hol" then
     -- `Model.Upstream`: node 0 is up and its table entry is absent or ended, so the request makes a connect attempt of
     -- its own and is served (`request … = .served`), whatever a connect to another node is doing
